@@ -317,3 +317,153 @@ fn _uses(bv: &mut BitVector) {
     bv.enable_select_zero();
     let _: &RawVector = bv.as_ref();
 }
+
+//-----------------------------------------------------------------------------
+// Memory-mapped views of catalogue values
+
+use simple_sds::int_vector::IntVectorMapper;
+use simple_sds::ops::{Access, Vector};
+use simple_sds::raw_vector::{AccessRaw, RawVectorMapper};
+use simple_sds::serialize::{MappedBytes, MappedOption, MappedSlice, MappedStr, MemoryMap, MemoryMapped};
+
+/// What a view created at some offset exposes.
+#[derive(Debug, PartialEq, Eq)]
+pub struct ViewInfo {
+    pub offset: usize,
+    pub len: usize,
+    /// `None` if the view exposes exactly the content the descriptor describes, else a description.
+    pub mismatch: Option<String>,
+}
+
+fn raw_view_mismatch(view: &RawVectorMapper, m: &Bits) -> Option<String> {
+    if view.len() as u128 != m.len || view.is_empty() != (m.len == 0) {
+        return Some(format!("RawVectorMapper.len() = {}, expected {}", view.len(), m.len));
+    }
+    let expect = raw_from_model(m);
+    for i in 0..expect.len() {
+        if view.bit(i) != expect.bit(i) {
+            return Some(format!("RawVectorMapper.bit({}) differs", i));
+        }
+    }
+    let words: &[u64] = expect.as_ref();
+    for (i, &w) in words.iter().enumerate() {
+        if view.word(i) != w || unsafe { view.word_unchecked(i) } != w {
+            return Some(format!("RawVectorMapper.word({}) differs", i));
+        }
+    }
+    for &(off, w) in &[(0usize, 64usize), (1, 63), (61, 7), (0, 1), (0, 0)] {
+        if off + w <= expect.len() && unsafe { view.int(off, w) != expect.int(off, w) } {
+            return Some(format!("RawVectorMapper.int({}, {}) differs", off, w));
+        }
+    }
+    if view.count_ones() != expect.count_ones() {
+        return Some("RawVectorMapper.count_ones() differs".to_string());
+    }
+    if view.is_mutable() {
+        return Some("RawVectorMapper.is_mutable() is true".to_string());
+    }
+    None
+}
+
+fn int_view_mismatch(view: &IntVectorMapper, width: usize, values: &[u64]) -> Option<String> {
+    if view.len() != values.len() || view.width() != width || view.is_empty() != values.is_empty() {
+        return Some(format!("IntVectorMapper (len, width) = ({}, {}), expected ({}, {})", view.len(), view.width(), values.len(), width));
+    }
+    for (i, &v) in values.iter().enumerate() {
+        if view.get(i) != v {
+            return Some(format!("IntVectorMapper.get({}) = {}, expected {}", i, view.get(i), v));
+        }
+    }
+    let it: Vec<u64> = view.iter().collect();
+    if it != values || view.iter().len() != values.len() {
+        return Some("IntVectorMapper.iter() differs".to_string());
+    }
+    if view.is_mutable() {
+        return Some("IntVectorMapper.is_mutable() is true".to_string());
+    }
+    None
+}
+
+fn info<'a, T: MemoryMapped<'a>>(v: &T, mismatch: Option<String>) -> ViewInfo {
+    ViewInfo { offset: v.map_offset(), len: v.map_len(), mismatch }
+}
+
+fn opt_mismatch<T>(got: Option<&T>, want_some: bool) -> Option<String> {
+    if got.is_some() != want_some {
+        Some(format!("MappedOption is {}, expected {}", if got.is_some() { "Some" } else { "None" }, if want_some { "Some" } else { "None" }))
+    } else {
+        None
+    }
+}
+
+/// Creates the view type matching the descriptor at `offset`; `None` if the type has no view.
+pub fn mapped_view(d: &Desc, map: &MemoryMap, offset: usize) -> Option<io::Result<ViewInfo>> {
+    Some(match d {
+        Desc::VecU64(v) => MappedSlice::<u64>::new(map, offset).map(|s| {
+            let mm = if s.as_ref() != v.as_slice() || s.len() != v.len() || s.is_empty() != v.is_empty() || (0..v.len()).any(|i| s[i] != v[i]) { Some("MappedSlice<u64> content differs".to_string()) } else { None };
+            info(&s, mm)
+        }),
+        Desc::VecUsize(v) => MappedSlice::<usize>::new(map, offset).map(|s| {
+            let mm = if s.as_ref() != v.as_slice() { Some("MappedSlice<usize> content differs".to_string()) } else { None };
+            info(&s, mm)
+        }),
+        Desc::VecPair(v) => MappedSlice::<(u64, u64)>::new(map, offset).map(|s| {
+            let mm = if s.as_ref() != v.as_slice() || s.len() != v.len() { Some("MappedSlice<(u64,u64)> content differs".to_string()) } else { None };
+            info(&s, mm)
+        }),
+        Desc::Bytes(v) => MappedBytes::new(map, offset).map(|s| {
+            let mm = if s.as_ref() != v.as_slice() || s.len() != v.len() || s.is_empty() != v.is_empty() || (0..v.len()).any(|i| s[i] != v[i]) { Some("MappedBytes content differs".to_string()) } else { None };
+            info(&s, mm)
+        }),
+        Desc::Str(v) => MappedStr::new(map, offset).map(|s| {
+            let mm = if s.as_ref() != v.as_str() || s.len() != v.len() || s.is_empty() != v.is_empty() { Some("MappedStr content differs".to_string()) } else { None };
+            info(&s, mm)
+        }),
+        Desc::OptVecU64(o) => MappedOption::<MappedSlice<u64>>::new(map, offset).map(|s| {
+            let mut mm = opt_mismatch(s.as_ref(), o.is_some());
+            if let (Some(view), Some(v)) = (s.as_ref(), o.as_ref()) {
+                if view.as_ref() != v.as_slice() {
+                    mm = Some("MappedOption<MappedSlice<u64>> content differs".to_string());
+                }
+            }
+            if s.is_some() != o.is_some() || s.is_none() != o.is_none() {
+                mm = Some("MappedOption::is_some/is_none wrong".to_string());
+            }
+            info(&s, mm)
+        }),
+        Desc::OptBytes(o) => MappedOption::<MappedBytes>::new(map, offset).map(|s| {
+            let mut mm = opt_mismatch(s.as_ref(), o.is_some());
+            if let (Some(view), Some(v)) = (s.as_ref(), o.as_ref()) {
+                if view.as_ref() != v.as_slice() {
+                    mm = Some("MappedOption<MappedBytes> content differs".to_string());
+                }
+            }
+            info(&s, mm)
+        }),
+        Desc::OptStr(o) => MappedOption::<MappedStr>::new(map, offset).map(|s| {
+            let mut mm = opt_mismatch(s.as_ref(), o.is_some());
+            if let (Some(view), Some(v)) = (s.as_ref(), o.as_ref()) {
+                if view.as_ref() != v.as_str() {
+                    mm = Some("MappedOption<MappedStr> content differs".to_string());
+                }
+            }
+            info(&s, mm)
+        }),
+        Desc::Raw(b) => RawVectorMapper::new(map, offset).map(|s| {
+            let mm = raw_view_mismatch(&s, &b.model());
+            info(&s, mm)
+        }),
+        Desc::Int { width, values } => IntVectorMapper::new(map, offset).map(|s| {
+            let mm = int_view_mismatch(&s, *width, values);
+            info(&s, mm)
+        }),
+        Desc::OptInt(o) => MappedOption::<IntVectorMapper>::new(map, offset).map(|s| {
+            let mut mm = opt_mismatch(s.as_ref(), o.is_some());
+            if let (Some(view), Some((w, v))) = (s.as_ref(), o.as_ref()) {
+                mm = int_view_mismatch(view, *w, v);
+            }
+            info(&s, mm)
+        }),
+        _ => return None,
+    })
+}
